@@ -203,6 +203,13 @@ class Guarded:
         self.flag, self.value = flag, value
 
 
+class LoopIdx:
+    """the counter of `for index, row in enumerate(array)`, plus a constant"""
+
+    def __init__(self, node, sym, off=0):
+        self.node, self.sym, self.off = node, sym, off
+
+
 class Returned(Exception):
     def __init__(self, value):
         self.value = value
@@ -340,6 +347,16 @@ class Engine:
             return self.rebuild_idx(d.base, atoms)
         raise TranslateError('internal: rebuild_idx')
 
+    def same_factors(self, a, b):
+        """two row-major products of the same batch axes in a different order: as many elements, matched by flat position"""
+        return isinstance(a, Prod) and isinstance(b, Prod) and all(isinstance(f, Sym) for f in a.factors + b.factors) and \
+            sorted(f.name for f in a.factors) == sorted(f.name for f in b.factors) and not self.deq(a, b)
+
+    def reflat(self, frm, to, idx):
+        """index of the dimension `to` at the flat position of the index `idx` of the dimension `frm`"""
+        fn, tn = tuple(f.name for f in frm.factors), tuple(f.name for f in to.factors)
+        return tuple(mk('reflat', fn, tn, tuple(idx), pos) for pos in range(len(tn)))
+
     def dim_max(self, a, b):
         if self.deq(a, b):
             return a
@@ -366,6 +383,8 @@ class Engine:
                 d = b
             elif self.is_one(b):
                 d = a
+            elif self.same_factors(a, b):
+                d = a
             else:
                 raise TranslateError('shapes %r and %r do not broadcast%s' % (sa, sb, what))
             out.append(d)
@@ -379,13 +398,16 @@ class Engine:
         for k, d in enumerate(shape):
             if self.deq(d, outshape[k + off]):
                 res.append(idx[k + off])
+            elif self.same_factors(outshape[k + off], d):
+                res.append(self.reflat(outshape[k + off], d, idx[k + off]))
             else:
                 res.append(self.zero_idx(d))
         return res
 
     def broadcast_to(self, t, shape, what=''):
         bs = self.bshape(t.shape, shape, what)
-        if len(bs) != len(shape) or not all(self.deq(x, y) or (self.is_one(x) and self.is_one(y)) for x, y in zip(bs, shape)):
+        if len(bs) != len(shape) or not all(self.deq(x, y) or (self.is_one(x) and self.is_one(y)) or self.same_factors(x, y)
+                                            for x, y in zip(bs, shape)):
             raise TranslateError('a %r array does not fit into %r%s' % (t.shape, shape, what))
         return T(shape, lambda idx, t=t, shape=list(shape): t.fn(self.bidx(t.shape, shape, idx)), t.kind, t.atomic)
 
@@ -1024,6 +1046,8 @@ class Interp:
             return e.ew(lambda x, y: mk('and', x, y), a, b, 'b')
         if isinstance(node.op, ast.Add) and isinstance(a, (list, tuple)) and isinstance(b, (list, tuple)):
             return Shape(self.as_shape(a, src) + self.as_shape(b, src))
+        if isinstance(a, LoopIdx) and isinstance(node.op, (ast.Add, ast.Sub)) and isinstance(b, int) and not isinstance(b, bool):
+            return LoopIdx(a.node, a.sym, a.off + (b if isinstance(node.op, ast.Add) else -b))
         if isinstance(a, CountVar) and isinstance(node.op, ast.Mult) and isinstance(b, int) and not isinstance(b, bool):
             return CountVar(a.rc, a.factor * b)
         if isinstance(b, CountVar) and isinstance(node.op, ast.Mult) and isinstance(a, int) and not isinstance(a, bool):
@@ -1104,7 +1128,14 @@ class Interp:
                     continue
                 raise TranslateError('unsupported slice ' + ast.unparse(x))
             v = self.ev(x)
-            if v is None or (isinstance(v, int) and not isinstance(v, bool)) or (isinstance(v, T) and v.kind == 'b'):
+            if isinstance(v, LoopIdx):
+                if v.off == 0:
+                    out.append(v.node)
+                elif v.off == -1:       # Python wraps the index -1 of the first pass around to the last row
+                    out.append(mk('prev', v.node, v.sym.name))
+                else:
+                    raise TranslateError('row %+d relative to the loop counter' % v.off)
+            elif v is None or (isinstance(v, int) and not isinstance(v, bool)) or (isinstance(v, T) and v.kind == 'b'):
                 out.append(v)
             elif isinstance(v, bool):
                 raise TranslateError('boolean index')
@@ -1559,9 +1590,13 @@ class Interp:
         """`for row in array:` with accumulators `acc = torch.cat((acc, rows))`"""
         e = self.e
         src = 'for %s in %s' % (ast.unparse(st.target), ast.unparse(st.iter))
-        if st.orelse or not isinstance(st.target, ast.Name):
+        target, counter, iter_node = st.target, None, st.iter
+        if isinstance(target, ast.Tuple) and len(target.elts) == 2 and all(isinstance(x, ast.Name) for x in target.elts) and \
+                isinstance(iter_node, ast.Call) and ast.unparse(iter_node.func) == 'enumerate' and len(iter_node.args) == 1 and not iter_node.keywords:
+            counter, target, iter_node = target.elts[0].id, target.elts[1], iter_node.args[0]
+        if st.orelse or not isinstance(target, ast.Name):
             raise TranslateError('unsupported loop ' + src)
-        it = self.ev(st.iter)
+        it = self.ev(iter_node)
         if not (isinstance(it, T) and it.shape and isinstance(it.shape[0], Sym)):
             raise TranslateError('%s: only loops over the first (batch) axis of an array are modelled' % src)
         s = it.shape[0]
@@ -1579,7 +1614,9 @@ class Interp:
             if not (isinstance(v, T) and v.shape):
                 raise TranslateError('%s: the loop-carried %s is not an array' % (src, a))
             self.env[a] = T([Acc(a)] + v.shape[1:], v.fn, v.kind, True)
-        self.env[st.target.id] = e.getitem(it, [j], src)
+        self.env[target.id] = e.getitem(it, [j], src)
+        if counter is not None:
+            self.env[counter] = LoopIdx(j, s)
         e.ambient.append((j, s))
         try:
             self.exec_block(st.body)
@@ -1592,6 +1629,8 @@ class Interp:
         for a in assigned:
             if a not in carried:
                 self.env[a] = ('poison', 'assigned inside `%s`' % src)
+        if counter is not None:
+            self.env[counter] = ('poison', 'the counter of `%s`' % src)
         for a in carried:
             v, init = after[a], before[a]
             if not (isinstance(v, T) and v.shape and isinstance(v.shape[0], Cat) and len(v.shape[0].parts) == 2 and
